@@ -18,6 +18,8 @@
 #pragma once
 
 #include <atomic>
+#include <set>
+#include <string>
 #include <thread>
 
 #include "oomd/dropin/DropInServiceAdaptor.h"
@@ -60,6 +62,7 @@ class FsDropInService : public DropInServiceAdaptor {
   int prepEventLoop(const std::chrono::seconds& interval);
   void processDropInRemove(const std::string& file);
   void processDropInAdd(const std::string& file);
+  void resyncDropInDir();
   int processDropInWatcher(int fd);
   int processEventLoop();
   void run();
@@ -72,6 +75,9 @@ class FsDropInService : public DropInServiceAdaptor {
   std::string drop_in_dir_;
   std::thread event_loop_;
   std::mutex event_loop_mutex_;
+  // Files a drop in was (last) loaded from. Only touched with
+  // event_loop_mutex_ held. Lets us catch up after lost inotify events.
+  std::set<std::string> seen_files_;
 };
 
 } // namespace Oomd
